@@ -708,6 +708,9 @@ class Model:
             s.update({"Ewr": True, "prog": True, "Einb": U, "opt": U, "multi": U, "nextm": U})
         elif kind in ("E_other", "L_other"):
             self.need("R2.2", "cursor-write@%s" % self._site(bb), False, where, "", "a cursor is assigned a value that is neither cursor+1 nor a peek result (%s): monotone progress cannot be established" % (ev[2],))
+            self.need("R3.1", "cursor-lands-on-peek@%s" % self._site(bb), False, where, "",
+                      "a cursor is moved to %s instead of the position the look-ahead found (or the next one): the expectation / line that was found to match is passed "
+                      "over, its remaining lines are reported as unexpected although the expectations describe the output" % (ev[2],))
             s.update({"Ewr": True, "Lwr": True, "Einb": U, "Linb": U})
         elif kind == "M_open":
             ok = ev[2] == "L" and s["match"] == T and s["multi"] == T and s["run"] == "closed"
